@@ -2,14 +2,15 @@
  * error, automatic precision within the requested error.
  *
  * case layout:
- *   sel:1      bits 0-1 precision (FULL/HIGH/MEDIUM/LOW), bits 2-3 mode (%3:
- *              INDEPENDENT/COMMON_EXPONENT/DELTA_EXPONENT), bits 4-5 == 3 ->
+ *   sel:1      bits 0-1 precision (FULL/HIGH/MEDIUM/LOW), bits 2-3 mode
+ *              (INDEPENDENT/COMMON_EXPONENT/DELTA_EXPONENT/COMMON), bits 4-5 == 3 ->
  *              varintFloatEncodeAuto, bits 6-7 background fill of the output
  *   [req]      only for auto: class:1 (+ args) -> requested error in (0,1),
  *              either at/next to one of {2^-52,1e-10,2^-23,5e-4,2^-10,0.03,
  *              2^-4} or log-uniform 2^-(k+1)*(1+f), k=0..63
  *   shape:1    bits 0-2: explicit | one binade | spread<=255 | spread>=256 |
  *              specials interleaved | free mix; bit 3: sprinkle specials
+ *              (bulk); bits 4-5: exponent window 256 / 4 binades (explicit)
  *   explicit:  elements until the case is exhausted (1..64)
  *   bulk:      len:1(+2) seed:4 shape-args, expanded with vf_xs; then up to 8
  *              patches { index:2 element }
@@ -313,8 +314,17 @@ static uint64_t *take_doubles(vf_rd *r, size_t *np, unsigned *shp) {
         if (!v) {
             abort();
         }
+        /* bits 4-5: fold the exponents of normal elements into a window so
+         * that small spreads are as frequent as huge ones */
+        unsigned fold = (s >> 4) & 3;
         do {
-            v[n++] = take_elem(r);
+            uint64_t u = take_elem(r);
+            if (!is_special_bits(u) && (fold == 1 || fold == 2)) {
+                unsigned e = expf_of(u);
+                e = fold == 1 ? 896 + e % 256u : 1022 + e % 4u;
+                u = mk((unsigned)(u >> 63), e, frac_of(u));
+            }
+            v[n++] = u;
         } while (n < 64 && vf_left(r) > 0);
         *np = n;
         return v;
@@ -677,6 +687,7 @@ static int check_array(ctx *c, const uint64_t *bits, size_t n, unsigned prec,
                                      : "float.lossy.special";
     const char *siteErr = isauto ? "float.auto.error" : "float.lossy.error";
     long double b = isauto ? (long double)req : pubBound;
+    size_t escapes = 0;
     for (size_t i = 0; i < n && !bad; i++) {
         uint64_t u = bits[i];
         uint64_t g;
@@ -714,7 +725,7 @@ static int check_array(ctx *c, const uint64_t *bits, size_t n, unsigned prec,
         double d = bits2d(g);
         if (isinf(d) && eff != VARINT_FLOAT_PRECISION_FULL &&
             (g >> 63) == (u >> 63) && rounds_above_max(u, (unsigned)m)) {
-            CLS(c, "escape.inf_taken"); /* the documented escape */
+            escapes++; /* the documented escape */
             continue;
         }
         if (isnan(d) || isinf(d) || !within(x, d, b)) {
@@ -742,6 +753,9 @@ static int check_array(ctx *c, const uint64_t *bits, size_t n, unsigned prec,
         }
     }
 
+    if (escapes) {
+        CLS(c, "escape.inf_taken");
+    }
     if (!bad && !c->quiet) {
         int lossy = isauto || prec != VARINT_FLOAT_PRECISION_FULL;
         if (normals >= 1 && (lossy || specials >= 1 || spread >= 2)) {
@@ -767,7 +781,8 @@ void vf_run(vf_rd *r, vf_report *rep) {
     ctx c = {rep, 0};
     unsigned sel = vf_u8(r);
     unsigned prec = sel & 3;
-    unsigned mode = ((sel >> 2) & 3) % 3;
+    static const unsigned modemap[4] = {0, 1, 2, 1};
+    unsigned mode = modemap[(sel >> 2) & 3];
     int isauto = ((sel >> 4) & 3) == 3;
     uint8_t fill = fills[sel >> 6];
     double req = 0;
